@@ -84,7 +84,7 @@ THOROUGH = [
     ("shapesst", "explore", ["shapes", "cmp=both", "levels=f1a/dbf1a/db", "steps=0", "maxstates=3000"], {"C15", "C16"}, False, None),
     ("shapesfl", "explore", ["shapes", "cmp=both", "levels=-/bdkf1/k", "steps=0", "maxstates=3000"], {"C16"}, False, None),
     ("shapesdc", "explore", ["shapes", "levels=p9/dbp9", "steps=0", "maxstates=3000"], {"C14"}, False, None),
-    ("big", "big", ["sizes=12,24,48,120,1200,12000", "full=48"], {"C19"}, False, BIGPROPS),
+    ("big", "big", ["sizes=12,24,48,120,1200,12000", "full=24"], {"C19"}, False, BIGPROPS),
 ]
 
 
